@@ -198,7 +198,7 @@ pub fn run_c13(args: &Args) {
         "C13",
         "modelcheck c13",
         args,
-        "for every single-operator case whose operator declares in-place inputs (read through the graph hook): the designated input is passed as an owned value (exact capacity, spare capacity, permuted) with the other inputs borrowed, so that the executor runs the operator in place; the result must equal the all-borrowed run in shape, dtype and bits. For operators reporting is_commutative the operands are also swapped. non-trivial = the executor's OpRun event confirms the operator really ran in place; distinct by (case, input set, in-place input, owned layout)",
+        "for every single-operator case whose operator declares in-place inputs (read through the graph hook): the designated input is passed as an owned value (exact capacity, spare capacity, permuted) with the other inputs borrowed, so that the executor runs the operator in place; the result must equal the all-borrowed run in shape, dtype and values exactly (-0 = +0, NaN = NaN). For operators reporting is_commutative the operands are also swapped. non-trivial = the executor's OpRun event confirms the operator really ran in place; distinct by (case, input set, in-place input, owned layout)",
     );
     rep.max_samples = 10;
     install_sink();
